@@ -27,7 +27,7 @@ func init() {
 		Assumptions: []string{"registrations precede first use of the same instance (what the API documents); a tag on a slice/map field selects the container treatment, not the element codec (comment in codec.go)"},
 		Work:        c17Work,
 		Post: func(a *mc.Agg) []string {
-			return needDims(a, "bfs-state", "probe:value", "probe:tagged-custom", "probe:options", "default-instance", "package-functions", "default-registration", "probe-order:reverse", "subject-registration")
+			return needDims(a, "bfs-state", "probe:value", "probe:tagged-custom", "probe:options", "default-instance", "package-functions", "default-registration", "probe-order:reverse", "subject-registration", "options-by-value")
 		},
 	})
 }
@@ -236,6 +236,9 @@ var c17Cfgs = []ref.Cfg{{}, {ProtoTime: true, ProtoArrays: true}}
 func c17Work(c *mc.Ctx) {
 	if c.Owns(2) {
 		c17Subjects(c)
+	}
+	if c.Owns(3) {
+		c17OptionsByValue(c)
 	}
 	if !c.Owns(0) && !c.Owns(1) {
 		return
@@ -502,6 +505,44 @@ func (m subjCodec) Append(data []byte, ptr unsafe.Pointer, tag []byte) []byte {
 // on a fresh instance; the registered codec must then be the one used for exactly that type
 // with exactly that tag - directly, as a struct field, behind a pointer - must not be used
 // for the same type under another tag or none, and a second instance must be unaffected.
+// c17OptionsByValue: the switches of an instance apply whichever way the value is handed over.
+func c17OptionsByValue(c *mc.Ctx) {
+	if !c.Begin(`{"set":"options-by-value"}`) {
+		return
+	}
+	c.AddEvals(1)
+	c.Count("states", 1)
+	c.Dim("options-by-value")
+	c.Guard("options|", func() {
+		tm := time.Unix(1600000000, 5).UTC()
+		strs := []string{"a", ""}
+		type pt struct {
+			T *time.Time `plenc:"1"`
+		}
+		type ps struct {
+			S *[]string `plenc:"1"`
+		}
+		type pm struct {
+			M map[string]time.Time `plenc:"1"`
+		}
+		for _, cfg := range ref.Cfgs {
+			p := NewPlenc(cfg)
+			for _, v := range []any{pt{&tm}, ps{&strs}, pm{map[string]time.Time{"k": tm}}} {
+				rv := reflect.ValueOf(v)
+				pv := reflect.New(rv.Type())
+				pv.Elem().Set(rv)
+				byPtr, e1 := p.Marshal(nil, pv.Interface())
+				byVal, e2 := p.Marshal(nil, v)
+				if e1 != nil || e2 != nil || !bytes.Equal(byPtr, byVal) {
+					c.Violation("options|by-value-differs-from-by-pointer", fmt.Sprintf("configuration %s, %T: by pointer %s (%v), by value %s (%v)", cfg, v, hx(byPtr), e1, hx(byVal), e2))
+					return
+				}
+			}
+		}
+		c.Outcome("ok")
+	})
+}
+
 func c17Subjects(c *mc.Ctx) {
 	subjects := []reflect.Type{
 		reflect.TypeOf(gen.Marker(0)), reflect.TypeOf(gen.NString("")), reflect.TypeOf(gen.In{}), reflect.TypeOf(gen.NSliceStr(nil)), reflect.TypeOf(gen.NSliceF64(nil)),
@@ -583,6 +624,27 @@ func c17Subjects(c *mc.Ctx) {
 						case !hit && ((gerr == nil) != (werr == nil) || (gerr == nil && got != want)):
 							c.Violation(pre+fmt.Sprintf("registration-leaks-to-another-tag:ptr=%v", ptr), fmt.Sprintf("field %s tagged %q: %s (%v) on the instance with a registration under %q, %s (%v) on a fresh instance", ft, useTag, got, gerr, regTag, want, werr))
 							return
+						}
+						// (3') the pointer field alone in its struct, handed to Marshal BY VALUE: such a struct
+						// sits directly in the interface word and takes a separate path inside Marshal
+						if ptr {
+							std := reflect.StructOf([]reflect.StructField{st.Field(0)})
+							byValue := func(q *plenc.Plenc) (string, error) {
+								v := reflect.New(std).Elem()
+								v.Field(0).Set(reflect.New(std.Field(0).Type.Elem()))
+								b, err := q.Marshal(nil, v.Interface())
+								return hx(b), err
+							}
+							dgot, dgerr := byValue(p)
+							dwant, dwerr := byValue(fresh)
+							switch {
+							case hit && (dgerr != nil || dgot != wantMarker):
+								c.Violation(pre+"registered-codec-not-used-by-value", fmt.Sprintf("struct{F %s `%s`} by value encodes as %s (%v), the registered codec writes %s", ft, useTag, dgot, dgerr, wantMarker))
+								return
+							case !hit && ((dgerr == nil) != (dwerr == nil) || (dgerr == nil && dgot != dwant)):
+								c.Violation(pre+"registration-leaks-by-value", fmt.Sprintf("struct{F %s `%s`} by value: %s (%v) vs fresh %s (%v)", ft, useTag, dgot, dgerr, dwant, dwerr))
+								return
+							}
 						}
 						// (4) another instance never sees it
 						ogot, oerr := enc(other, st, ptr)
